@@ -11,6 +11,8 @@
 //!   cg_crel_history maxlarge rels  -> emitted relations + bookkeeping of CRelationSet (paths, stored relations: hook)
 //!   (cg_h, cg_full, cg_poly take an optional last argument 0|1: force the double large prime variation, and
 //!    trailing `fb=N`, `large=N`, `dbl=0|1`: Preferences::{fb_size, large_factor, use_double} = ymcls --fb/--large/--use-double)
+//!   rf_pivots steps rels | rf_dense rels | rf_rowsub i j c rels | rf_trim count rels
+//!                                  -> hook: RelFilterSparse (relation filter) with a dump of its whole state
 //!   cg_poly D first count target   -> hook: the real sieve, one polynomial at a time, with the relations it produced
 use crate::util::*;
 use std::str::FromStr;
@@ -96,7 +98,7 @@ pub fn handle(op: &str, a: &[&str]) -> Option<String> {
     let mut a: Vec<&str> = a.to_vec();
     let mut pf = prefs();
     let mut has_kv = false;
-    if matches!(op, "cg_h" | "cg_full" | "cg_poly") {
+    if matches!(op, "cg_h" | "cg_full" | "cg_poly" | "rf_real") {
         while let Some(last) = a.last() {
             let Some((k, v)) = last.split_once('=') else { break };
             match k {
@@ -312,6 +314,33 @@ fn handle_with(op: &str, a: &[&str], pf: Preferences) -> Option<String> {
                 if lines.is_empty() { "-".into() } else { lines }
             ))
         }
+        ("rf_real", [d, first, count, target]) => {
+            // real sieved relations (per-polynomial hook) pushed through the real filter
+            let d = int_of(d)?;
+            let t = classgroup::verif_hooks_cls::vh_sieve_polys(&d, &pf, usize_of(first)?, usize_of(count)?, usize_of(target)?);
+            let rels: Vec<CRelation> = t.polys.iter().flat_map(|p| p.rels.iter().cloned()).collect();
+            let text = join_or(rels.iter().map(show_rel).collect(), ";");
+            let (dump, dups) = vhf::vh_filter_dense(rels);
+            Some(format!("{} || {} | dups={}", text, show_dump(&dump), dups))
+        }
+        ("rf_pivots", [steps, rels]) => {
+            let (d, n) = vhf::vh_pivots(rels_of(rels)?, usize_of(steps)?);
+            Some(format!("{} | n={}", show_dump(&d), n))
+        }
+        ("rf_dense", [rels]) => {
+            let (d, dups) = vhf::vh_filter_dense(rels_of(rels)?);
+            Some(format!("{} | dups={}", show_dump(&d), dups))
+        }
+        ("rf_rowsub", [i, j, c, rels]) => Some(
+            match vhf::vh_rowsub(rels_of(rels)?, usize_of(i)?, usize_of(j)?, c.parse().ok()?) {
+                None => "overflow".into(),
+                Some(d) => show_dump(&d),
+            },
+        ),
+        ("rf_trim", [count, rels]) => {
+            let (d, t) = vhf::vh_trim(rels_of(rels)?, usize_of(count)?);
+            Some(format!("{} | trimmed={}", show_dump(&d), t))
+        }
         ("cg_poly", [d, first, count, target]) => {
             let d = int_of(d)?;
             let t = classgroup::verif_hooks_cls::vh_sieve_polys(
@@ -363,6 +392,53 @@ fn handle_with(op: &str, a: &[&str], pf: Preferences) -> Option<String> {
         }
         _ => None,
     }
+}
+
+use yamaquasi::relationcls::verif_hooks_filter as vhf;
+
+fn rels_of(s: &str) -> Option<Vec<CRelation>> {
+    if s == "-" {
+        return Some(vec![]);
+    }
+    s.split(';').map(rel_of).collect()
+}
+
+fn show_row(r: &[(u32, i32)]) -> String {
+    if r.is_empty() {
+        "-".to_string()
+    } else {
+        r.iter().map(|&(p, e)| show_fac(p, e)).collect::<Vec<_>>().join(".")
+    }
+}
+
+fn join_or(v: Vec<String>, sep: &str) -> String {
+    if v.is_empty() {
+        "-".to_string()
+    } else {
+        v.join(sep)
+    }
+}
+
+/// whole state of a RelFilterSparse (hook dump)
+fn show_dump(d: &vhf::FilterDump) -> String {
+    format!(
+        "rows={} | weight={} | nonzero={} | removed={} | skip={} | wmin={} nextelims={} nzrows={} nzcoeffs={}",
+        join_or(d.rows.iter().map(|r| show_row(r)).collect(), ";"),
+        join_or(d.weight.iter().map(|(p, w)| format!("{p}:{w}")).collect(), ","),
+        join_or(
+            d.nonzero
+                .iter()
+                .map(|(p, l)| format!("{p}:{}", join_or(l.iter().map(|x| x.to_string()).collect(), "+")))
+                .collect(),
+            ","
+        ),
+        join_or(d.removed.iter().map(|(p, r)| format!("{p}={}", show_row(r))).collect(), ";"),
+        show_list(&d.skip),
+        d.wmin,
+        show_list(&d.nextelims),
+        d.nonzero_rows,
+        d.nonzero_coeffs
+    )
 }
 
 struct DirGuard(std::path::PathBuf);
